@@ -30,3 +30,13 @@ Print Assumptions C06_accept_wf_refuted_on_pinned_code.
 Theorem C06_accepted_nesting_bounded : forall w n k, run_nesting [w; n; k] = [1] -> nesting_levels w n <= max_nesting.
 Proof. exact accepted_nesting_bounded. Qed.
 Print Assumptions C06_accepted_nesting_bounded.
+
+(* the nesting scan in front of every decoder fed from outside (internal/bencodedepth Check, kind 603):
+   for every byte string it terminates within len+1 iterations without indexing outside the input
+   (the string length is accumulated in a Go int with wrap-around: the guard inside the digit loop is
+   what keeps it from wrapping) and answers "fine" or "too deep" *)
+From RainV Require Import Depth.
+Theorem C06_depth_scan_total : forall b, zlen b < 100000000000000000 -> Forall (fun c => 0 <= c < 256) b ->
+  depth_check b = DOk \/ depth_check b = DTooDeep.
+Proof. exact check_total. Qed.
+Print Assumptions C06_depth_scan_total.
